@@ -11,7 +11,9 @@ Second set S2 (own work units, listed first): versions whose upstream part conta
 x revisions, so that (x, y:z) and (x:y, z) meet in both orders) and numeric boundaries (digit runs of 17-25
 characters with and without leading zeros, equal values that differ only in leading zeros, neighbours such as
 ...09 / ...10, values around 2**53, 2**63 and 2**64; in upstream and in revision position).  Every unordered pair
-of S2 and every pair of S2 x K (K = a core of the old space) is executed in both directions.
+of S2 and every pair of S2 x K (K = a core of the old space) is executed in both directions.  One further unit
+("history") asks all ordered pairs of a subset H of S2 twice in one process: comparison is a pure function, so an
+answer may not depend on what was asked before.
 
 Oracle per ordered pair (x, y): version_compare(x, y) and the six rich comparisons of Version objects
 equal the sign given by mc.models.dpkgver (key order, asserted equal to the verrevcmp transliteration);
@@ -80,13 +82,15 @@ def bounds(tier):
             "pairs": "all unordered pairs of U_n + S, both directions", "triples": "all triples of U_2 + S-core",
             "S2_colon": "%d epochs %r x %d upstreams %r x %d revisions %r" % (
                 len(S2_EPOCHS), S2_EPOCHS, len(S2_COLON_UPSTREAMS), S2_COLON_UPSTREAMS, len(S2_REVISIONS), S2_REVISIONS),
-            "S2_numeric": "%d digit runs: %r; for each length L in %r: 10**(L-1), 10**(L-1)+9, 10**(L-1)+10, 10**L-1 "
+            "S2_numeric": "%d digit runs: the short runs %r; for each length L in %r: 10**(L-1), 10**(L-1)+9, 10**(L-1)+10, 10**L-1 "
                           "(no leading zeros) and 0, 1, 9, 10, 10**(L-1)-1 padded with zeros to L digits; "
                           "2**53, 2**53+1, 2**63-1, 2**63, 2**64-1, 2**64 (upstream position only); every run as %s<run> "
                           "and as %s<run>" % (len(s2_runs()), S2_SMALL_RUNS, S2_RUN_LENGTHS, S2_UPSTREAM_PREFIX,
                                               S2_REVISION_PREFIX),
             "S2": "%d strings" % len(s2_raw({})),
             "K": "%d strings of U_n + S: S-core%s + %r" % (len(k_raw(tier)), "" if tier == "quick" else " + U_2", K_EXTRA),
+            "history": "one work unit that asks all ordered pairs of H (%d strings: the colon set and every 8th other string "
+                       "of S2) twice in one process, the second time in reverse order with new objects" % len(history_strings({"s2": s2_raw({})})),
             "S2_pairs": "all unordered pairs of S2 and all pairs S2 x K, both directions (pairs already in (U_n + S)^2 "
                         "are left to the units of that space)"}
 
@@ -250,6 +254,7 @@ def _units(tier, seed):
             raise SystemExit(3)
     # S2 rows first: see RULE
     out = [{"k": "s2", "row": i} for i in range(len(sp["s2"]))]
+    out.append({"k": "history"})
     out += [{"k": "pairs", "row": i} for i in range(len(sp["strings"]))]
     n = len(sp["tset"])
     per = -(-n // TRIPLE_UNITS)
@@ -260,6 +265,8 @@ def _units(tier, seed):
 def unit_cost(u, tier):
     if u["k"] == "s2":
         return 200000 - u["row"]         # small, but started first (on fresh workers)
+    if u["k"] == "history":
+        return 1                         # started last: on a worker that has answered many other questions before
     if u["k"] == "pairs":
         return 100000 - u["row"]
     return 30000
@@ -353,6 +360,8 @@ def run_unit(u, tier, seed):
         return unit_pairs(part, sp, u["row"])
     if u["k"] == "s2":
         return unit_s2(part, sp, u["row"])
+    if u["k"] == "history":
+        return unit_history(part, sp)
     return unit_triples(part, sp, u["rows"])
 
 
@@ -460,6 +469,53 @@ def unit_s2(part, sp, i):
         part.extra["S2 x K ordered pairs"] += n
     if i % 29 == 0:
         part.sample({"k": "pair", "a": a, "b": s2[-1 - i // 2]})
+    return part
+
+
+def history_strings(sp):
+    """H: the colon set and every 8th of the other S2 strings"""
+    n = len(S2_EPOCHS) * len(S2_COLON_UPSTREAMS) * len(S2_REVISIONS)
+    return sp["s2"][:n] + sp["s2"][n::8]
+
+
+def unit_history(part, sp):
+    """One history: every ordered pair of H is asked, then every ordered pair is asked again (fresh objects, reverse
+    order).  In the second pass every question has been preceded by every other question, so an answer that depends on
+    what was asked before (a result cache with colliding keys, scratch state kept between calls) differs from the
+    model somewhere.  The pairs themselves belong to the S2 rows; this unit counts one trace (the history)."""
+    from debian.debian_support import version_compare
+    h = history_strings(sp)
+    n = 0
+    for step in (1, -1):
+        hs = h[::step]
+        objs = []
+        for s in hs:
+            try:
+                objs.append(construct(s))
+            except Exception:
+                return part               # reported by the S2 rows
+        for a, A in zip(hs, objs):
+            for b, B in zip(hs, objs):
+                c, comp, why = dpkgver.explain(a, b)
+                n += 1
+                try:
+                    ok = version_compare(a, b) == c and (A < B, A == B, A > B) == (c < 0, c == 0, c > 0)
+                except Exception:
+                    ok = False
+                if ok:
+                    continue
+                bad = run_pair(a, b, A, B, c, comp, why)
+                if not bad:
+                    bad = [("order/history-dependent", "stable answers for (%r, %r)" % (a, b),
+                            "the first answer disagreed with the model, the repeated one did not")]
+                for sig, exp, obs in bad:
+                    part.violation(sig, {"k": "pair", "a": a, "b": b}, exp, obs, rank=len(a) + len(b),
+                                   note="comparison #%d of the history unit" % n)
+    part.traces += 1
+    part.evaluations += n
+    part.extra["history unit: strings"] += len(h)
+    part.extra["history unit: comparisons in one process"] += n
+    part.outcomes["history of %d comparisons executed" % n] += 1
     return part
 
 
